@@ -22,7 +22,7 @@ Concat(tx) == IF tx = <<>> THEN "" ELSE tx[1] \o Concat(Tail(tx))
 Name(t) == Concat(t.tx)
 
 Keywords == {"if", "let", "any", "all", "map", "filter", "reduce", "collect"}
-StdPC == [vars |-> {"x", "y", "z", "n", "m", "s", "l", "e"}, ops |-> {"f", "g", "h", "p"},
+StdPC == [vars |-> {"x", "y", "z", "n", "m", "s", "l", "e"}, ops |-> {"f", "g", "h", "p", "one", "zt", "zf"},
           consts |-> [c \in {"K", "KT"} |-> IF c = "K" THEN I(3) ELSE B(TRUE)], undef |-> FALSE]
 IsOperatorName(pc, nm) == IsBuiltin(nm) \/ nm \in pc.ops
 
